@@ -272,7 +272,7 @@ def main():
         hit = caught.get(name, False)
         run.canaries.append(dict(name=name, detected=hit))
         if not hit:
-            run.inconc('canary not detected: %s' % name)
+            run.canary_miss(name, caught)
     run.bounds = dict(quick='driver configuration (3 groups, 3-D) on grids (1,2),(2,2),(2,1); all ordered pairs; extents <= 3',
                       thorough='driver 3-D on 8 grids up to (3,3), 4-D analogue, a two-group family; extents <= 4/3', this_run=run.tier)
     run.outside = ['extents above the bound', 'more than 3 processes per direction', 'MPI.DOUBLE hard-coded in Allgather: element byte width is not modelled '
